@@ -11,6 +11,8 @@ PROFILES = {
     "crash":     (0.4,    0.05,  0.25,  0.5,      1.5),
     "retry":     (0.04,   0.04,  0.03,  1.2,      2.5),
     "service":   (0.03,   0.02,  0.0,   0.25,     3.0),
+    # leader change right after a commit that reached only part of the followers (see handover_window)
+    "handover":  (0.03,   0.02,  0.1,   0.15,     2.5),
 }
 
 
@@ -33,6 +35,43 @@ def scripted_duel(n):
     ev = [("ERVTimeout", 1, True, 0), ("ERVTimeout", 2, True, 0)]
     ev += [("ERVSend", 1, 0, True)] * (n + 1) + [("ERVSend", 2, 0, True)] * (n + 1)
     return ev
+
+
+def scripted_split(n):
+    """even n: the two halves hold an election each in the same term (requests to the other half are lost); every candidate then
+    tries to become leader with exactly half of the votes (must abort: half is not a quorum)"""
+    if n < 2 or n % 2:
+        return []
+    a, b = 1, n // 2 + 1
+    half_a, half_b = range(1, n // 2 + 1), range(n // 2 + 1, n + 1)
+    ev = [("ERVTimeout", a, True, 0)] + [("ERVSend", a, 0 if j in half_a else 1, True) for j in range(1, n + 1)] + [("ERVSend", a, 0, True)]
+    ev += [("ERVTimeout", b, True, 0)] + [("ERVSend", b, 0 if j in half_b else 1, True) for j in range(1, n + 1)] + [("ERVSend", b, 0, True)]
+    for j in list(half_a)[1:] + list(half_b)[1:]:
+        ev += [("EServerLoop", j, 0), ("EHandleMsg", j, 0, True)]
+    for _ in range(n // 2 - 1):
+        ev += [("EServerLoop", a, 0), ("EHandleMsg", a, 0, True), ("EServerLoop", b, 0), ("EHandleMsg", b, 0, True)]
+    ev += [("EBecomeLeader", a, 0), ("EBecomeLeader", b, 0)]
+    return ev
+
+
+def handover_window(w):
+    """(L, A, B): live leader L of the highest term whose commit index is known to follower A but not to follower B, B's log being
+    as up to date as A's: a leader change to B now makes B advertise a lower leaderCommit than A's commitIndex"""
+    g = w.g
+    al = [i for i in w.servers() if g["network"][i]["enabled"]]
+    if len(al) < 3:
+        return None
+    top = max(g["currentTerm"][i] for i in al)
+    for L in al:
+        if g["state"][L] != "leader" or g["currentTerm"][L] != top or g["commitIndex"][L] == 0:
+            continue
+        fol = [i for i in al if i != L and g["currentTerm"][i] == top]
+        for A in fol:
+            for B in fol:
+                if B != A and g["commitIndex"][B] < g["commitIndex"][A] and len(g["log"][B]) >= len(g["log"][A]) \
+                        and g["log"][B][:len(g["log"][A])] == g["log"][A]:
+                    return (L, A, B)
+    return None
 
 
 def tuple_event(e):
@@ -69,6 +108,24 @@ def choose_event(rng, w, profile):
         nodes = list(w.servers()) + w.client_ids()
         w.slow = set(rng.sample(nodes, rng.randint(0, min(2, len(nodes)))))
 
+    # leader change right after a commit that reached only part of the followers
+    win = handover_window(w)
+    if win and rng.random() < (0.9 if profile == "handover" else 0.3):
+        L, A, B = win
+        w.slow = set([L])                       # what the old leader still has in flight is delayed
+        w.focus = (L, A, B)                     # the election of B and its first AppendEntries to A get priority from now on
+        w.handovers = getattr(w, "handovers", 0) + 1
+        if w.pc.get("x%d" % L) == "AServerCrasher.serverCrash" and rng.random() < 0.5:
+            return ("ECrash", L)
+        if w.pc["s%d.1" % B] == "AServerRequestVote.serverRequestVoteLoop":
+            return ("ERVTimeout", B, True, 0)
+    focus = getattr(w, "focus", None)
+    if focus and (g["state"][focus[2]] == "follower" and g["currentTerm"][focus[2]] <= g["currentTerm"][focus[0]]
+                  or g["commitIndex"][focus[2]] >= g["commitIndex"][focus[1]]):
+        focus = w.focus = None                  # the change of leader did not happen / is over
+
+    boost = 3.0 if profile == "handover" else 1.0     # replication and commit rounds of the leader
+
     def send_choice():
         r = rng.random()
         if r < p_drop:
@@ -80,6 +137,8 @@ def choose_event(rng, w, profile):
     for i in w.servers():
         alive = g["network"][i]["enabled"]
         f = 1.0 if alive else 0.04
+        if focus:
+            f *= 0.05 if i == focus[0] else 5.0 if i in focus[1:] else 0.3
         q = w.queue(i)
         # AServer
         if w.pc["s%d.0" % i] == "AServer.serverLoop":
@@ -109,21 +168,21 @@ def choose_event(rng, w, profile):
             ch = 0 if len(g["appendEntriesCh"][i]) > 0 else 1
             if rng.random() < 0.04:
                 ch = 1 - ch
-            cands.append(((2.0 if g["state"][i] == "leader" else 0.05) * f, ("EAELoop", i, ch)))
+            cands.append(((2.0 * boost if g["state"][i] == "leader" else 0.05) * f, ("EAELoop", i, ch)))
         else:
             br, fdv = send_choice()
             cands.append((6 * f, ("EAESend", i, br, fdv)))
         # AServerAdvanceCommitIndex
         if w.pc["s%d.3" % i] == "AServerAdvanceCommitIndex.serverAdvanceCommitIndexLoop":
-            cands.append(((1.5 if g["state"][i] == "leader" else 0.05) * f, ("EAdvance", i)))
+            cands.append(((1.5 * boost if g["state"][i] == "leader" else 0.05) * f, ("EAdvance", i)))
         else:
             cands.append((6 * f, ("EApply", i)))
         # AServerBecomeLeader
         ch = 0 if len(g["becomeLeaderCh"][i]) > 0 else 1
         if rng.random() < 0.04:
             ch = 1 - ch
-        ready = g["state"][i] == "candidate" and 2 * len(R.setlist(g["votesGranted"][i])) > n
-        cands.append(((8 if ready else 0.08) * f, ("EBecomeLeader", i, ch)))
+        nv = len(R.setlist(g["votesGranted"][i])) if g["state"][i] == "candidate" else 0
+        cands.append(((8 if 2 * nv > n else 2 if (2 * nv == n and n > 1) else 0.08) * f, ("EBecomeLeader", i, ch)))
         # crasher
         pcx = w.pc.get("x%d" % i)
         if pcx == "AServerCrasher.serverCrash":
@@ -163,15 +222,17 @@ def choose_event(rng, w, profile):
     return cands[-1][1]
 
 
-def gen_params(rng, tier, for_c09=False):
+def gen_params(rng, tier, for_c09=False, force_n=None):
     if for_c09:
-        n = rng.choice([1, 1, 1, 2, 2, 3])
+        n = rng.choice([1, 1, 1, 2, 2, 3, 3, 4])
         nc = rng.choice([2, 2, 3])
         maxfail = (n - 1) // 2
         crashers = sorted(rng.sample(range(1, n + 1), rng.randint(0, maxfail))) if (maxfail > 0 and rng.random() < 0.4) else []
         return {"n": n, "nc": nc, "buf": rng.choice([3, 4, 6, 10]), "fifo": True, "explorefail": True,
                 "crashers": crashers, "keys": rng.choice([1, 1, 2, 3]), "vals": rng.choice([2, 3])}
-    n = rng.choice([1, 2, 3, 3, 3, 4, 5])
+    n = rng.choice([1, 2, 2, 3, 3, 3, 4, 4, 5])
+    if force_n:
+        n = force_n
     nc = rng.choice([1, 1, 2, 3])
     maxfail = (n - 1) // 2
     crashers = sorted(rng.sample(range(1, n + 1), rng.randint(0, maxfail))) if maxfail > 0 else []
@@ -204,6 +265,7 @@ def walk(h, rng, params, nsteps, profile, on_step=None, full_every=25, prefix=()
         ev = prefix[k] if k < len(prefix) else choose_event(rng, w, profile)
         pick = rng.randrange(n)
         m_before = w.loc("s%d.0" % ev[1], "AServer.m") if ev[0] == "EHandleMsg" else None
+        ci_before = w.g["commitIndex"][ev[1]] if ev[0] == "EHandleMsg" else 0
         oev, outcome, out = R.do_event(h, w, ev, pickidx=pick)
         res.intended.append(list(ev))
         res.picks.append(pick)
@@ -220,6 +282,9 @@ def walk(h, rng, params, nsteps, profile, on_step=None, full_every=25, prefix=()
                 if sent:
                     last_m = sent[-1]
                     key += ":" + str(last_m.get("msuccess", last_m.get("mvoteGranted")))
+                    if m_before["mtype"] == "apq" and last_m.get("msuccess") and m_before["mcommitIndex"] < ci_before:
+                        res.cover["handover:apq accepted with leaderCommit < commitIndex"] = \
+                            res.cover.get("handover:apq accepted with leaderCommit < commitIndex", 0) + 1
         res.cover[key] = res.cover.get(key, 0) + 1
         for wv in out.get("wiring") or []:
             res.failures.append({"signature": "shared-variable-not-shared:" + wv.split("[")[0],
